@@ -24,7 +24,7 @@ from .. import common
 THEOREMS = ["Pt.gen_deterministic", "Pt.genMany_deterministic"]
 
 
-def run_children(ctx, seed, indices, hashseeds, multi=(), lcalls=()):
+def run_children(ctx, seed, indices, hashseeds, multi=(), lcalls=(), ncase=()):
     procs = []
     for hs in hashseeds:
         sc = ctx.scratch / f"child{hs}"
@@ -36,7 +36,8 @@ def run_children(ctx, seed, indices, hashseeds, multi=(), lcalls=()):
         env["PYTHONWARNINGS"] = "ignore"
         env["PYTATO_REPO"] = str(common.REPO)
         p = subprocess.Popen([sys.executable, "-m", "harness.child_c17", str(seed), str(out), str(hs * 2),
-                              ",".join(map(str, indices)), ",".join(map(str, multi)), ",".join(map(str, lcalls))],
+                              ",".join(map(str, indices)), ",".join(map(str, multi)), ",".join(map(str, lcalls)),
+                              ",".join(map(str, ncase))],
                              cwd=str(common.VERIF), env=env,
                              stdout=subprocess.PIPE, stderr=subprocess.STDOUT, text=True)
         procs.append((hs, p, out))
@@ -75,7 +76,10 @@ def run(ctx: common.Ctx):
     multi = sorted(set(multi))
     from ..gen import loopycalls
     lcalls = list(range(loopycalls.COUNT))
-    res = run_children(ctx, ctx.seed + 1700, indices, hashseeds, multi, lcalls)
+    from ..gen import namecase
+    ncase = list(range(namecase.COUNT))
+    res = run_children(ctx, ctx.seed + 1700, indices, hashseeds, multi, lcalls, ncase)
+    ndis = 0
     dis = 0
     mdis = 0
     ldis = 0
@@ -85,7 +89,7 @@ def run(ctx: common.Ctx):
               "arg_order": "kernel argument order", "callees": "names of the kernels in the translation unit",
               "loopy_error": "loopy error class", "py_error": "python target error class", "cl_error": "cl error"}
     compared = {f: 0 for f in fields}
-    for i in indices + [f"m{j}" for j in multi] + [f"lc{j}" for j in lcalls]:
+    for i in indices + [f"m{j}" for j in multi] + [f"lc{j}" for j in lcalls] + [f"nc{j}" for j in ncase]:
         dis0 = dis
         b = base[str(i)]
         if "error" in b:
@@ -119,7 +123,11 @@ def run(ctx: common.Ctx):
                                   f"program {i}: {what} differs between PYTHONHASHSEED={hashseeds[0]} and {hs}: {d}",
                                   {"program_index": i, "seed": ctx.seed + 1700, "hash_seeds": [hashseeds[0], hs],
                                    "first_difference": d})
-        if isinstance(i, str) and i.startswith("lc"):
+        if isinstance(i, str) and i.startswith("nc"):
+            ndis += dis - dis0
+            ctx.sample({"batch": "seed-sweep-names-differing-in-case", "program": i, "names": namecase.names(int(i[2:])),
+                        "arg_order": b.get("arg_order")})
+        elif isinstance(i, str) and i.startswith("lc"):
             ldis += dis - dis0
             ctx.sample({"batch": "seed-sweep-loopy-calls", "program": i, "callees": b.get("callees"),
                         "error": b.get("loopy_error")})
@@ -136,7 +144,11 @@ def run(ctx: common.Ctx):
                    how="harness/gen/loopycalls.py: callee kernels sharing names (renamed on a clash), chained and "
                        "multi-output calls; the children with an odd hash seed first generate code for unrelated "
                        "graphs whose callees have the same names and different bodies")
-    ctx.note_batch("hash-seed-sweep(codegen)", nprog * (len(hashseeds) - 1), dis - mdis - ldis, exhaustive=False,
+    ctx.note_batch("hash-seed-sweep(names differing only in case / digits / underscores)",
+                   len(ncase) * (len(hashseeds) - 1), ndis, exhaustive=False, programs=len(ncase),
+                   how="harness/gen/namecase.py: 5..8 inputs, 4 outputs and prefixes of wrapped data whose names are equal "
+                       "under str.lower / share prefixes: an ordering by such a key falls back on set order")
+    ctx.note_batch("hash-seed-sweep(codegen)", nprog * (len(hashseeds) - 1), dis - mdis - ldis - ndis, exhaustive=False,
                    programs=nprog, hash_seeds=hashseeds, artefacts_compared=compared)
     ctx.note_batch("hash-seed-sweep(multi-output codegen)", len(multi) * (len(hashseeds) - 1), mdis, exhaustive=False,
                    programs=len(multi), hash_seeds=hashseeds,
